@@ -29,8 +29,10 @@
 -/
 import LemoProofs.Lemmas.LedgerSum
 import LemoProofs.Lemmas.LedgerReward
+import LemoProofs.Lemmas.LedgerFrame
+import LemoProofs.Lemmas.LedgerNonNeg
 namespace LemoProofs.C05
-open LemoModel.Ledger LemoProofs.LedgerSum LemoProofs.LedgerReward
+open LemoModel.Ledger LemoProofs.LedgerSum LemoProofs.LedgerReward LemoProofs.LedgerFrame LemoProofs.LedgerNonNeg
 
 /-- the addresses a non-box tx may touch -/
 def touches (c : Ctx) (tx : Tx) : List Nat :=
@@ -54,9 +56,10 @@ theorem doVote_sum (c : Ctx) (s s' : St) (v cand : Nat) (ib : Int) (U : List Nat
     · rw [sumBal_modAcct _ _ _ (by intro _; rfl)]
     · rfl
 
-theorem doSetSigners_sum (s s' : St) (fr tg : Nat) (l : List (Nat × Nat)) (U : List Nat)
-    (h : doSetSigners s fr tg l = .ok s') : sumBal s' U = sumBal s U := by
+theorem doSetSigners_sum (s s' : St) (fr tg : Nat) (l : List (Nat × Nat)) (tok : Bool) (U : List Nat)
+    (h : doSetSigners s fr tg l tok = .ok s') : sumBal s' U = sumBal s U := by
   unfold doSetSigners at h
+  split at h; · cases h
   split at h; · cases h
   split at h; · cases h
   split at h; · cases h
@@ -65,9 +68,9 @@ theorem doSetSigners_sum (s s' : St) (fr tg : Nat) (l : List (Nat × Nat)) (U : 
   injection h with h; subst h
   exact sumBal_modAcct _ _ _ (by intro _; rfl) U
 
-theorem doRegister_sum (c : Ctx) (s s' : St) (fr : Nat) (amt : Int) (unreg : Bool) (inc : Nat) (U : List Nat)
+theorem doRegister_sum (c : Ctx) (s s' : St) (fr : Nat) (amt : Int) (flag : Nat) (inc : Nat) (nd : Bool) (U : List Nat)
     (hn : U.Nodup) (hf : fr ∈ U) (hp : c.p.pool ∈ U)
-    (h : doRegister c s fr amt unreg inc = .ok s') : sumBal s' U = sumBal s U := by
+    (h : doRegister c s fr amt flag inc nd = .ok s') : sumBal s' U = sumBal s U := by
   unfold doRegister at h
   simp only at h
   split at h
@@ -77,6 +80,7 @@ theorem doRegister_sum (c : Ctx) (s s' : St) (fr : Nat) (amt : Int) (unreg : Boo
     injection h with h; subst h
     rw [sumBal_modAcct _ _ _ (by intro _; rfl), sumBal_transfer _ _ _ _ U hn hf hp, sumBal_modAcct _ _ _ (by intro _; rfl)]
   · split at h; · cases h
+    split at h; · cases h
     split at h
     · -- unregister
       split at h
@@ -112,8 +116,8 @@ theorem body_sum (c : Ctx) (s s' : St) (tx : Tx) (ib : Int) (U : List Nat) (hn :
     · injection h with h; subst h; rfl
     · injection h with h; subst h; exact sumBal_transfer _ _ _ _ U hn hs ht
   | vote cand => simp only [hk] at h; exact doVote_sum c s s' _ _ _ U h
-  | register amt unreg inc => simp only [hk] at h; exact doRegister_sum c s s' _ _ _ _ U hn hs hp h
-  | setSigners tg l => simp only [hk] at h; exact doSetSigners_sum s s' _ _ _ U h
+  | register amt flag inc nd => simp only [hk] at h; exact doRegister_sum c s s' _ _ _ _ _ U hn hs hp h
+  | setSigners tg l tok => simp only [hk] at h; exact doSetSigners_sum s s' _ _ _ _ U h
   | box => simp [hk] at h
   | other => simp [hk] at h
 
@@ -154,6 +158,90 @@ theorem applySimple_supply (c : Ctx) (s s' : St) (gp gp' : Nat) (tx : Tx) (g : N
       rw [Int.sub_mul]
     omega
   · rw [hig]; congr 1; omega
+
+/-! ### per-account statements -/
+
+/-- **payer_charged**: the account debited for the gas of an included non-box tx is the GAS PAYER, by exactly
+    gasUsed × gasPrice — stated for a payer whose balance the body does not touch (it is not the sender, the deposit pool
+    or the recipient; for a self-paid transfer see `value_moves_on_success`) — and nobody else's balance changes except
+    through the body. -/
+theorem payer_charged (c : Ctx) (s s' : St) (gp gp' g : Nat) (tx : Tx) (h : applySimple c s gp tx = .ok (s', gp', g))
+    (hp : tx.payer ∉ bodyTouches c tx) :
+    (s'.accts tx.payer).bal = (s.accts tx.payer).bal - (g : Int) * tx.gasPrice ∧
+    (∀ x, x ≠ tx.payer → x ∉ bodyTouches c tx → (s'.accts x).bal = (s.accts x).bal) := by
+  obtain ⟨sb, hb, hs', _, _⟩ := applySimple_shape c s s' gp gp' g tx h
+  subst hs'
+  constructor
+  · rw [setBal_bal, if_pos rfl, body_bal_other c _ sb tx _ hb _ hp, setBal_bal, if_pos rfl, Int.sub_mul]
+    omega
+  · intro x hx hxt
+    rw [setBal_bal, if_neg hx, body_bal_other c _ sb tx _ hb _ hxt, setBal_bal, if_neg hx]
+
+/-- **value_moves_on_success**: an included transfer of `v` from the sender to another account `to` moves exactly `v`:
+    the recipient gains `v`, the sender loses `v`; whoever of the two is the gas payer additionally pays gasUsed × gasPrice.
+    (A transfer that is NOT included moves nothing: `not_included_free`.) -/
+theorem value_moves_on_success (c : Ctx) (s s' : St) (gp gp' g : Nat) (tx : Tx) (to : Nat) (v : Int)
+    (hk : tx.kind = .transfer to v) (hne : tx.sender ≠ to) (h : applySimple c s gp tx = .ok (s', gp', g)) :
+    (s'.accts to).bal = (s.accts to).bal + v - (if to = tx.payer then (g : Int) * tx.gasPrice else 0) ∧
+    (s'.accts tx.sender).bal = (s.accts tx.sender).bal - v - (if tx.sender = tx.payer then (g : Int) * tx.gasPrice else 0) := by
+  obtain ⟨sb, hb, hs', _, _⟩ := applySimple_shape c s s' gp gp' g tx h
+  subst hs'
+  unfold body at hb
+  simp only [hk] at hb
+  split at hb; · cases hb
+  have hmul : ((tx.gasLimit : Int) - (g : Int)) * tx.gasPrice = (tx.gasLimit : Int) * tx.gasPrice - (g : Int) * tx.gasPrice :=
+    Int.sub_mul _ _ _
+  have hne' : to ≠ tx.sender := fun e => hne e.symm
+  -- the balances after the body, in terms of the state after the gas purchase
+  have hsb : (sb.accts to).bal = ((setBal s tx.payer ((s.accts tx.payer).bal - (tx.gasLimit : Int) * tx.gasPrice)).accts to).bal + v ∧
+      (sb.accts tx.sender).bal = ((setBal s tx.payer ((s.accts tx.payer).bal - (tx.gasLimit : Int) * tx.gasPrice)).accts tx.sender).bal - v := by
+    split at hb
+    · rename_i hv0
+      injection hb with hb; subst hb
+      constructor <;> omega
+    · injection hb with hb; subst hb
+      unfold transfer
+      simp only
+      constructor
+      · rw [setBal_bal, if_pos rfl, setBal_bal, if_neg hne']
+      · rw [setBal_bal, if_neg hne, setBal_bal, if_pos rfl]
+  have h1 := hsb.1
+  have h2 := hsb.2
+  rw [setBal_bal] at h1 h2
+  constructor
+  · rw [setBal_bal]
+    by_cases e : to = tx.payer
+    · rw [if_pos e] at h1
+      rw [if_pos e, if_pos e, ← e, h1, hmul, e]; omega
+    · rw [if_neg e] at h1
+      rw [if_neg e, if_neg e, h1]; omega
+  · rw [setBal_bal]
+    by_cases e : tx.sender = tx.payer
+    · rw [if_pos e] at h2
+      rw [if_pos e, if_pos e, ← e, h2, hmul, e]; omega
+    · rw [if_neg e] at h2
+      rw [if_neg e, if_neg e, h2]; omega
+
+/-- **not_included_free**: a candidate the miner could not execute costs nobody anything: the rest of the block is mined
+    from exactly the state before it (only the block's gas pool may have shrunk), it is not selected and adds no fee. -/
+theorem not_included_free (c : Ctx) (s : St) (gp gp' : Nat) (t : Tx) (ts : List Tx) (e : Err)
+    (hg : ¬ gp < LemoGen.Gas.OrdinaryTxGas) (h : applyTx c s gp t = .error (e, gp')) :
+    (mine c s gp (t :: ts)).st = (mine c s gp' ts).st ∧ (mine c s gp (t :: ts)).fee = (mine c s gp' ts).fee ∧
+    (mine c s gp (t :: ts)).sel = (mine c s gp' ts).sel ∧ mineSel c s gp (t :: ts) = mineSel c s gp' ts := by
+  simp [mine, mineSel, hg, h]
+
+/-- **miner_income**: `chargeForGas` credits exactly the fee total to the income address of the miner's profile, and
+    touches nobody else. (Without an income address: `fee_vanishes_without_income`.) -/
+theorem miner_income (s : St) (m : Nat) (f : Int) (hinc : (s.accts m).income ≠ 0) :
+    ((chargeForGas s m f).accts (s.accts m).income).bal = (s.accts (s.accts m).income).bal + f ∧
+    (∀ x, x ≠ (s.accts m).income → ((chargeForGas s m f).accts x).bal = (s.accts x).bal) := by
+  unfold chargeForGas
+  by_cases hf : f = 0
+  · simp [hf]
+  · simp only [hf, if_false, hinc]
+    constructor
+    · rw [setBal_bal, if_pos rfl]
+    · intro x hx; rw [setBal_bal, if_neg hx]
 
 /-! ### whole blocks -/
 
@@ -293,6 +381,199 @@ theorem minted_bounds (c : Ctx) (hp : 0 < c.p.rewardPrecision) (hv : ∀ n ∈ c
     rw [if_pos ⟨hr, ht⟩]
     exact salaryTotal_gt c.p hp _ _ hne hv
 
+/-! ### boxes: the mint, exactly -/
+
+/-- neither the tx nor one of its sub-txs is SENT by account `m` (so `m`'s income address cannot change) -/
+def NotSentBy (m : Nat) (tx : Tx) : Prop := tx.sender ≠ m ∧ ∀ t ∈ tx.subs, t.sender ≠ m
+
+theorem applySubs_supply (c : Ctx) (U : List Nat) (hn : U.Nodup) (m : Nat) : ∀ (ts : List Tx) (s s' : St) (gp gp' g : Nat) (f : Int),
+    (∀ t ∈ ts, ∀ a ∈ touches c t, a ∈ U) → (∀ t ∈ ts, t.sender ≠ m) → applySubs c s gp ts = .ok (s', gp', g, f) →
+    sumBal s' U = sumBal s U - f ∧ (s'.accts m).income = (s.accts m).income := by
+  intro ts
+  induction ts with
+  | nil =>
+    intro s s' gp gp' g f _ _ h
+    simp only [applySubs] at h
+    injection h with h; injection h with h1 h2; injection h2 with _ h3; injection h3 with _ h4
+    subst h1 h4; exact ⟨by omega, rfl⟩
+  | cons t ts ih =>
+    intro s s' gp gp' g f hU hm h
+    simp only [applySubs] at h
+    cases h1 : applySimple c s gp t with
+    | error e => simp [h1] at h
+    | ok r =>
+      obtain ⟨s1, gp1, g1⟩ := r
+      simp only [h1] at h
+      cases h2 : applySubs c s1 gp1 ts with
+      | error e => simp [h2] at h
+      | ok r2 =>
+        obtain ⟨s2, gp2, g2, f2⟩ := r2
+        simp only [h2] at h
+        obtain ⟨i1, i2⟩ := ih s1 s2 gp1 gp2 g2 f2 (fun x hx => hU x (List.mem_cons_of_mem _ hx))
+          (fun x hx => hm x (List.mem_cons_of_mem _ hx)) h2
+        obtain ⟨e1, _, _, _⟩ := applySimple_supply c s s1 gp gp1 t g1 U hn (hU t List.mem_cons_self) h1
+        have e2 := applySimple_income_other c s s1 gp gp1 g1 t h1 m (Ne.symm (hm t List.mem_cons_self))
+        injection h with h; injection h with a1 a2; injection a2 with _ a3; injection a3 with _ a4
+        subst a1 a4
+        exact ⟨by rw [i1, e1]; omega, by rw [i2, e2]⟩
+
+/-- the gas of the sub-txs of a box, as `RunBoxTxs` reports it for the box executed in state `s` with gas pool `gp` -/
+def subGasOf (c : Ctx) (s : St) (gp : Nat) (tx : Tx) : Nat :=
+  match tx.kind with
+  | .box =>
+    (match applySubs c (setBal s tx.payer ((s.accts tx.payer).bal - (tx.gasLimit : Int) * tx.gasPrice)) (gp - tx.gasLimit) tx.subs with
+     | .ok (_, _, sg, _) => sg
+     | .error _ => 0)
+  | _ => 0
+
+/-- **applyTx_box_supply** (the known finding c05/supply-changed/box-subtx-fee-paid-twice, characterised exactly): an included
+    box moves the total of all balances by −gasUsed × gasPrice PLUS subGas × gasPrice, where subGas is the gas of its
+    sub-txs: RunBoxTxs has already paid the sub-txs' fees to the miner and the caller reports them again inside the
+    box's gasUsed, which the block then charges to nobody but credits to the miner at the BOX's price. Per box the block
+    mints exactly subGas × boxPrice (`mine_supply_exact`); gasUsed = own intrinsic gas + subGas. -/
+theorem applyTx_box_supply (c : Ctx) (s s' : St) (gp gp' g : Nat) (tx : Tx) (U : List Nat) (hn : U.Nodup)
+    (hk : tx.kind = .box) (hpU : tx.payer ∈ U) (hU : ∀ t ∈ tx.subs, ∀ a ∈ touches c t, a ∈ U)
+    (hm : ∀ t ∈ tx.subs, t.sender ≠ c.miner)
+    (hinc : (s.accts c.miner).income ≠ 0) (hincU : (s.accts c.miner).income ∈ U)
+    (h : applyTx c s gp tx = .ok (s', gp', g)) :
+    sumBal s' U = sumBal s U - (g : Int) * tx.gasPrice + (subGasOf c s gp tx : Int) * tx.gasPrice ∧
+    subGasOf c s gp tx ≤ g ∧ (∃ ig, intrinsic tx = some ig ∧ g = ig + subGasOf c s gp tx) ∧
+    (s'.accts c.miner).income = (s.accts c.miner).income := by
+  unfold applyTx at h
+  simp only [hk] at h
+  split at h; · cases h
+  split at h; · cases h
+  split at h; · cases h
+  split at h; · cases h
+  rename_i ig hig
+  split at h; · cases h
+  rename_i hgl
+  split at h; · cases h
+  rename_i s2 gp2 sg sf hsub
+  injection h with h
+  injection h with h1 h2
+  injection h2 with _ h3
+  subst h1 h3
+  have hsg : subGasOf c s gp tx = sg := by unfold subGasOf; simp only [hk, hsub]
+  obtain ⟨e1, e2⟩ := applySubs_supply c U hn c.miner tx.subs _ s2 _ gp2 sg sf hU hm hsub
+  rw [setBal_income] at e2
+  have hinc2 : (s2.accts c.miner).income ≠ 0 := by rw [e2]; exact hinc
+  have hincU2 : (s2.accts c.miner).income ∈ U := by rw [e2]; exact hincU
+  have hgl' : ig ≤ tx.gasLimit := by omega
+  have hcast : ((tx.gasLimit - (tx.gasLimit - ig) + sg : Nat) : Int) = (ig : Int) + (sg : Int) := by omega
+  have hrest : ((tx.gasLimit - ig : Nat) : Int) = (tx.gasLimit : Int) - (ig : Int) := by omega
+  refine ⟨?_, by rw [hsg]; omega, ⟨ig, hig, by rw [hsg]; omega⟩, ?_⟩
+  · rw [hsg, sumBal_setBal _ tx.payer _ U hn hpU, chargeForGas_sum _ _ _ U hn hinc2 hincU2, e1,
+      sumBal_setBal s tx.payer _ U hn hpU, hcast, hrest, Int.add_mul, Int.sub_mul]
+    omega
+  · rw [setBal_income, (chargeForGas_sameButBal _ _ _ _).1.2.2.2.1, e2]
+
+/-- what the boxes of a candidate list mint: Σ over the INCLUDED boxes of subGas × the box's gas price -/
+def boxMint (c : Ctx) : St → Nat → List Tx → Int
+  | _, _, [] => 0
+  | s, gp, t :: ts =>
+    if gp < LemoGen.Gas.OrdinaryTxGas then 0
+    else
+    match applyTx c s gp t with
+    | .error (_, gp') => boxMint c s gp' ts
+    | .ok (s1, gp1, _) => (subGasOf c s gp t : Int) * t.gasPrice + boxMint c s1 gp1 ts
+
+theorem subGasOf_nonbox (c : Ctx) (s : St) (gp : Nat) (t : Tx) (h : t.kind ≠ .box) : subGasOf c s gp t = 0 := by
+  unfold subGasOf
+  split
+  · rename_i hk; exact absurd hk h
+  · rfl
+
+theorem boxMint_boxFree (c : Ctx) : ∀ (txs : List Tx) (s : St) (gp : Nat), BoxFree txs → boxMint c s gp txs = 0 := by
+  intro txs
+  induction txs with
+  | nil => intro s gp _; rfl
+  | cons t ts ih =>
+    intro s gp hb
+    have hb' : BoxFree ts := fun x hx => hb x (List.mem_cons_of_mem _ hx)
+    unfold boxMint
+    split
+    · rfl
+    · split
+      · exact ih _ _ hb'
+      · rw [subGasOf_nonbox c s gp t (hb t List.mem_cons_self), ih _ _ hb']; simp
+
+/-- **mine_supply_exact**: for ANY candidate list (boxes included) mined by a deputy whose profile has an income address
+    in U and who sends none of the candidates itself: the miner path moves the total by exactly minus the fees it reports
+    plus `boxMint` — 0 without boxes, Σ subGas × boxPrice with them. -/
+theorem mine_supply_exact (c : Ctx) (U : List Nat) (hn : U.Nodup) : ∀ (txs : List Tx) (s : St) (gp : Nat),
+    (∀ t ∈ txs, (∀ a ∈ touches c t, a ∈ U) ∧ (∀ st ∈ t.subs, ∀ a ∈ touches c st, a ∈ U) ∧ NotSentBy c.miner t) →
+    (s.accts c.miner).income ≠ 0 → (s.accts c.miner).income ∈ U →
+    sumBal (mine c s gp txs).st U = sumBal s U - (mine c s gp txs).fee + boxMint c s gp txs ∧
+    ((mine c s gp txs).st.accts c.miner).income = (s.accts c.miner).income := by
+  intro txs
+  induction txs with
+  | nil => intro s gp _ _ _; simp [mine, boxMint]
+  | cons t ts ih =>
+    intro s gp hall hinc hincU
+    have hall' := fun x hx => hall x (List.mem_cons_of_mem _ hx)
+    obtain ⟨hU, hUs, hns, hnsub⟩ := hall t List.mem_cons_self
+    unfold mine boxMint
+    by_cases hg : gp < LemoGen.Gas.OrdinaryTxGas
+    · simp [hg]
+    · simp only [hg, if_false]
+      cases ha : applyTx c s gp t with
+      | error e =>
+        obtain ⟨e, gp'⟩ := e
+        simp only []
+        exact ih s gp' hall' hinc hincU
+      | ok r =>
+        obtain ⟨s1, gp1, g1⟩ := r
+        simp only []
+        have hstep : sumBal s1 U = sumBal s U - (g1 : Int) * t.gasPrice + (subGasOf c s gp t : Int) * t.gasPrice ∧
+            (s1.accts c.miner).income = (s.accts c.miner).income := by
+          by_cases hk : t.kind = .box
+          · obtain ⟨e1, _, _, e4⟩ := applyTx_box_supply c s s1 gp gp1 g1 t U hn hk (hU _ (by simp [touches])) hUs hnsub hinc hincU ha
+            exact ⟨e1, e4⟩
+          · rw [applyTx_nonbox c s gp t hk] at ha
+            obtain ⟨e1, _, _, _⟩ := applySimple_supply c s s1 gp gp1 t g1 U hn hU ha
+            rw [subGasOf_nonbox c s gp t hk]
+            exact ⟨by rw [e1]; simp, applySimple_income_other c s s1 gp gp1 g1 t ha c.miner (Ne.symm hns)⟩
+        obtain ⟨i1, i2⟩ := ih s1 gp1 hall' (by rw [hstep.2]; exact hinc) (by rw [hstep.2]; exact hincU)
+        exact ⟨by rw [i1, hstep.1]; omega, by rw [i2, hstep.2]⟩
+
+/-- **mineBlock_supply_exact**: whole blocks with boxes: Σ balances' = Σ balances + minted (reward block) + boxMint. -/
+theorem mineBlock_supply_exact (c : Ctx) (s : St) (gp : Nat) (txs : List Tx) (addrs U : List Nat) (hn : U.Nodup)
+    (hall : ∀ t ∈ txs, (∀ a ∈ touches c t, a ∈ U) ∧ (∀ st ∈ t.subs, ∀ a ∈ touches c st, a ∈ U) ∧ NotSentBy c.miner t)
+    (hinc : (s.accts c.miner).income ≠ 0) (hincU : (s.accts c.miner).income ∈ U) (hp : c.p.pool ∈ U)
+    (hrecv : ∀ n ∈ c.rf.nodes, incomeOf (chargeForGas (mine c s gp txs).st c.miner (mine c s gp txs).fee) n.1 ∈ U)
+    (href : ∀ a ∈ c.rf.refunds, a ∈ U) :
+    sumBal (mineBlock c s gp txs addrs).1 U = sumBal s U + minted c + boxMint c s gp txs := by
+  obtain ⟨hm, hi⟩ := mine_supply_exact c U hn txs s gp hall hinc hincU
+  unfold mineBlock
+  simp only
+  rw [finalize_supply c _ _ addrs U hn hp hrecv href,
+    chargeForGas_sum _ _ _ U hn (by rw [hi]; exact hinc) (by rw [hi]; exact hincU), hm]
+  omega
+
+/-! ### balances never go negative -/
+
+/-- **balances_never_negative**: the ledger invariant `Inv` (all balances ≥ 0, recorded deposits ≥ 0 and only inside U,
+    Σ recorded deposits ≤ deposit pool) is kept by every block built from transactions the pool admits (`TxWf`: gas price,
+    value and deposit amount non-negative — guaranteed by VerifyTxBody / the RLP decoder —, sender and payer are not the
+    keyless deposit pool, senders are in U) with reward facts `RewardWf` (precision > 0, no negative votes in a term
+    record, refunds name accounts of U other than the pool): in particular NO balance is negative after the block.
+    The model's `setBal` is total where Go's SetBalance / Refund panic: under these guards it is never used outside
+    Go's domain (`LedgerNonNeg.mineBlock_inv` and the per-step lemmas `applyTx_inv`, `mine_inv`, `finalize_inv`). -/
+theorem balances_never_negative (c : Ctx) (U : List Nat) (hn : U.Nodup) (s : St) (gp : Nat) (txs : List Tx) (addrs : List Nat)
+    (hI : Inv c.p.pool U s) (hw : ∀ t ∈ txs, TxWf c.p.pool U t) (hr : RewardWf c U) :
+    (∀ a, 0 ≤ ((mineBlock c s gp txs addrs).1.accts a).bal) ∧ Inv c.p.pool U (mineBlock c s gp txs addrs).1 :=
+  ⟨(mineBlock_inv c U hn s gp txs addrs hI hw hr).bal, mineBlock_inv c U hn s gp txs addrs hI hw hr⟩
+
+/-- the guard is needed, and it is exactly Go's panic: `Refund` out of a pool that does not cover the recorded deposit
+    drives the MODEL's pool balance negative — and `refundPanics` (Go: "The balance of candidate deposit pool account is
+    insufficient") is true for that very step. -/
+def drained : St := { accts := fun a => if a = 1 then { bal := 500 } else if a = 30 then { isCand := 2, deposit := some 2000 } else {} }
+def drainedCtx : Ctx := { p := { pool := 1 }, miner := 3, height := 7 }
+theorem drained_pool_refund_is_a_go_panic :
+    ((refund drainedCtx drained 30).accts 1).bal = -1500 ∧ refundPanics drainedCtx drained [30] = true := by
+  decide
+
 /-! ### refutations of the full statement on the code as it stands (kernel-checked witnesses) -/
 
 /-- accounts of the witnesses: 10 box sender, 11 sub-tx sender, 12 recipient, 3 miner with income address 4 -/
@@ -360,5 +641,18 @@ example : BoxFree [wSub] ∧ (∀ t ∈ [wSub], ∀ a ∈ touches wCtx t, a ∈ 
   · intro t ht a ha; simp at ht; subst ht; simp [touches, wSub, wCtx] at ha; rcases ha with rfl | rfl | rfl | rfl <;> decide
 example : sumBal (mineBlock wCtx (w0 4) 100000000 [wSub] wU).1 wU = sumBal (w0 4) wU := by decide
 example : minted wCtx = 0 := by decide
+
+/-! non-vacuity: the witness state of the box example satisfies the invariant, its txs are admitted -/
+example : Inv 1 wU (w0 4) ∧ TxWf 1 wU wBox ∧ TxWf 1 wU wSub := by
+  refine ⟨⟨?_, ?_, ?_, ?_⟩, ?_, ?_⟩
+  · intro a; unfold w0; simp only; split <;> (try split) <;> (try split) <;> simp
+  · intro a; unfold w0 depOf; simp only; split <;> (try split) <;> (try split) <;> simp
+  · intro a _; unfold w0; simp only; split <;> (try split) <;> (try split) <;> rfl
+  · decide
+  · refine ⟨⟨by decide, by decide, by decide, by decide, by simp [wBox]⟩, ?_⟩
+    intro t ht; simp [wBox] at ht; subst ht
+    exact ⟨by decide, by decide, by decide, by decide, by simp [wSub]⟩
+  · refine ⟨⟨by decide, by decide, by decide, by decide, by simp [wSub]⟩, ?_⟩
+    intro t ht; simp [wSub] at ht
 
 end LemoProofs.C05
